@@ -1241,6 +1241,12 @@ int _vnadata_load_touchstone(vnadata_internal_t *vdip, FILE *fp,
 		    tps.tps_filename, tps.tps_line);
 		goto out;
 	    }
+	    if (reference != NULL && tps.u.tps_int != tps.tps_ports) {
+		_vnadata_error(vdip, VNAERR_SYNTAX, "%s (line %d) error: "
+			"[Number of Ports] must appear before [Reference]",
+		    tps.tps_filename, tps.tps_line);
+		goto out;
+	    }
 	    tps.tps_ports = tps.u.tps_int;
 	    if (tps.tps_ports != 2 &&
 		    (tps.tps_parameter_type == VPT_G ||
@@ -1322,6 +1328,7 @@ int _vnadata_load_touchstone(vnadata_internal_t *vdip, FILE *fp,
 		    tps.tps_filename, tps.tps_line);
 		goto out;
 	    }
+	    free((void *)reference);	/* repeated keyword: last wins */
 	    if ((reference = calloc(tps.tps_ports,
 			    sizeof(double complex))) == NULL) {
 		_vnadata_error(vdip, VNAERR_SYSTEM,
